@@ -121,6 +121,15 @@ impl<'a> BTreeIterator<'a> {
 	fn iter_inner(&mut self, direction: IterDirection) -> IterResult {
 		let col = self.col;
 
+		// Nothing lies before the start or after the end. Without this the commit overlay
+		// answered "nothing" while the tree cursor wrapped around to the far end of the tree (or,
+		// after a re-seek, landed on the empty key), so the two sources disagreed.
+		match (&self.last_key, direction) {
+			(LastKey::Start, IterDirection::Backward) | (LastKey::End, IterDirection::Forward) =>
+				return Ok(None),
+			_ => (),
+		}
+
 		loop {
 			// Lock log over function call (no btree struct change).
 			let commit_overlay = self.commit_overlay.read();
